@@ -11,11 +11,19 @@ Directed families (second round): procedures on live links - an LE and a BR/EDR 
 comes back after a disconnection (link_programs); CIS set-up as a central with a peer whose host accepts after a
 think time, met by commands that touch the CIG / the ACL / the CIS while it is pending (cis_programs); a controller
 that withholds the HCI command credit and returns it with a Command Complete for opcode 0 (credit_programs).
+
+Third round: callers that give up (cancel_programs). A caller of Host.send_command is cancelled (task.cancel()) or runs
+into an enclosing asyncio.wait_for time-out at a generated point of its command's life - before it runs, while it waits
+for the command channel, after the command was written, when the command has reached the controller, in the very loop
+iteration in which the response is dispatched, after the response - and is followed by further sequential and
+concurrent callers. The wire clauses are judged as everywhere else; a caller that was made to give up may end with
+CancelledError / TimeoutError, every other caller must get the response with its own opcode.
 """
 
 from __future__ import annotations
 
 import asyncio
+import collections
 import itertools
 
 from hypothesis import strategies as st
@@ -51,11 +59,25 @@ RULE = (
     'handle, a second LE Create CIS, an ISO data path; the peer\'s host accepts each request after 0 / 0.2 / 3 / 30 s); '
     'credit programs (the general programs against a controller that answers with Num_HCI_Command_Packets = 0 in a '
     'generated pattern and returns the credit in a Command Complete for opcode 0 after 0..60 ms). '
+    'Callers that give up (cancel programs): 1..6 commands over 1..4 callers, at least one of them cancelled by '
+    'task.cancel() at a generated point of its command\'s life - event (caller\'s task created / command written by '
+    'the host / command delivered to the controller / response delivered to the host, before the host dispatches it) '
+    '+ 0..50 ms + 0..3 loop iterations, which lands before the task runs, while it waits for the command channel, '
+    'between write and response, in the loop iteration of the dispatch, after the dispatch before the caller has '
+    'seen it, after the caller is done - or wrapped in an asyncio.wait_for of 0..120 ms; then 1..3 further phases '
+    'of 1..4 commands by one caller (sequential) or several (concurrent), each phase started 0..100 ms after the '
+    'callers before it have returned; plain reads, every registered class, unregistered opcodes; generated delays; '
+    'one case in four against the credit-withholding controller. The grid event x hops (16) + wait_for 0..9 ms, '
+    'alone / queued behind another caller, x 3 delay vectors x (sequential callers first / concurrent callers first) '
+    '(312 cases) is enumerated in every shard. '
     'non-trivial = >=2 commands and (>=2 callers or non-zero delay or an '
-    'unregistered/unhandled opcode or a procedure command); distinct by (packets, caller assignment, delays, peer '
-    'think time, credit pattern). Floors: every procedure kind of the statement is accepted as pending >= 15 times and '
+    'unregistered/unhandled opcode or a procedure command or a caller that gives up); distinct by (packets, caller '
+    'assignment, delays, peer think time, credit pattern, cancellation directives, phases). Floors: every procedure '
+    'kind of the statement is accepted as pending >= 15 times and '
     'ends with success >= 10 times, pages within / beyond the peer\'s range, a disconnected BR/EDR link, a link that '
-    'comes back on a used handle, withheld credits under concurrent callers.'
+    'comes back on a used handle, withheld credits under concurrent callers; a caller cancelled in each of the 7 '
+    'states of its command >= 10 times, timed out in each of 4 >= 5 times, a caller that gave up while its command '
+    'was on its way followed by sequential / by concurrent callers >= 50 times each.'
 )
 ASSUMPTIONS = [
     'delays are order-preserving (as the property states); "eventually" is decided as: no stall and '
@@ -71,8 +93,20 @@ ASSUMPTIONS = [
     'property, and the virtual controller has no accept timeout)',
     'the CIS handles named in LE Create CIS are predicted by the generator (lowest free handles after the links of '
     'the situation); the floor on accepted CIS set-ups fails if the controller ever allocates differently',
+    'a caller the harness cancels (or whose enclosing asyncio.wait_for expires) may end with CancelledError / '
+    'TimeoutError or with the response to its own command, nothing else; its command, once written, still counts as '
+    'outstanding at the controller until the controller has answered it (the statement counts commands at the '
+    'controller, not callers); every other caller - before, beside and after it - is judged as everywhere else. '
+    'Host.send_command(response_timeout=...) is not exercised (it declares the controller unresponsive; the virtual '
+    'controller answers everything)',
+    'to aim a cancellation the harness follows each command (serialised by the host = written; FIFO through the tap) '
+    '- this bookkeeping only selects the moment, the verdict comes from the tapped history and the callers\' results. '
+    'The last clause reads the anchored state (Host.command_semaphore permits, pending_command, pending_response) '
+    'at quiescence, when every command is answered and every caller has returned: exactly one permit and nothing '
+    'pending - any other value is a later "two outstanding" or "waits forever" that has not happened yet; it is '
+    'judged only in cases with a caller that gives up and only when every other clause held',
 ]
-SHRINK_KEYS = ('program',)
+SHRINK_KEYS = ('program', 'then')
 
 HORIZON = 400.0
 # link situations: which of them have a peer, an LE link (handle 1), a BR/EDR link on top (handle 2), a peer that
@@ -84,7 +118,7 @@ SIT_LEAVES = ('peer_leaves', 'dual_peer_leaves')
 SIT_FAST_ADV = ('adv_fast', 'dual', 'dual_peer_leaves')
 ABSENT_PUBLIC = hci.Address('0A:0B:0C:0D:0E:0F', hci.Address.PUBLIC_DEVICE_ADDRESS)
 # optional keys of a case (absent in the cases of the first generator families and in the committed replays)
-OPTIONAL_KEYS = ('cis_accept', 'credit')
+OPTIONAL_KEYS = ('cis_accept', 'credit', 'gap')
 NOP_CREDIT = bytes([0x04, 0x0E, 0x03, 0x01, 0x00, 0x00])  # Command Complete, Num_HCI_Command_Packets=1, opcode 0
 VICTIM_RANDOM = hci.Address('C0:00:00:00:00:00')
 PEER_RANDOM = hci.Address('C1:01:01:01:01:01')
@@ -383,35 +417,150 @@ def credit_programs():
         lambda d: {**d[0], 'credit': d[1], 'callers': max(d[0]['callers'], d[2] if len(d[0]['program']) > 1 else 1)})
 
 
+# the points of a command's life a cancellation is aimed at: the caller's task exists (it has not run yet) / the host
+# has written the command / the command is delivered to the controller / the response is delivered to the host (the
+# cancellation is executed right before the host dispatches it, in the same loop callback). From there the
+# cancellation is `ms` tap units and then `hops` loop iterations away; 0 / 0 = at once, inside the event.
+CANCEL_EVENTS = ('start', 'written', 'at_controller', 'response')
+# where a cancellation found its command (labels; classified by the harness when it is executed)
+CANCEL_STATES = ('not_started', 'queued', 'written', 'at_controller', 'at_dispatch', 'answered_unseen', 'done')
+_GAPS = (0, 0, 1, 10, 100)
+
+
+def _simple_commands():
+    H = hci
+    return [bytes(c) for c in (
+        H.HCI_Read_BD_ADDR_Command(), H.HCI_Read_Local_Name_Command(), H.HCI_LE_Read_Buffer_Size_Command(),
+        H.HCI_Read_Local_Version_Information_Command(), H.HCI_Read_Local_Supported_Commands_Command(),
+        H.HCI_LE_Rand_Command(), H.HCI_Read_Buffer_Size_Command(), H.HCI_LE_Read_Local_Supported_Features_Command())]
+
+
+def _directives():
+    cancel = st.fixed_dictionaries({
+        'how': st.just('cancel'), 'at': st.sampled_from(CANCEL_EVENTS), 'hops': st.integers(0, 3),
+        'ms': st.sampled_from([0, 0, 0, 0, 1, 3, 7, 50])})
+    # an enclosing asyncio.wait_for: the time-out runs from the moment the caller issues the command (tap units, as
+    # the delays: 1 unit = 1 ms), so with the generated delays it ends before, in the middle of and after the exchange
+    wait_for = st.fixed_dictionaries({
+        'how': st.just('wait_for'),
+        'ms': st.one_of(st.sampled_from([0, 1, 2, 7, 8, 14, 50, 51, 57, 100]), st.integers(0, 120))})
+    return cancel, wait_for
+
+
+def cancel_programs():
+    """Strategy: callers that give up. 1..6 commands over 1..4 callers of which at least one is cancelled
+    (task.cancel() at a generated point of the command's life, see CANCEL_EVENTS) or wrapped in an asyncio.wait_for
+    whose time-out falls before / into / after the exchange; then 1..3 further phases of callers, each started when the
+    phase before it has returned (and `gap` ms later): one caller = sequential use, several = concurrent use. Commands:
+    mostly plain reads (answered at once), any registered class, unregistered opcodes; generated delays, sometimes a
+    controller that withholds the command credit."""
+    classes = [hci.HCI_Command.command_classes[k] for k in sorted(hci.HCI_Command.command_classes)]
+    classes = [c for c in classes if c.op_code != hci.HCI_RESET_COMMAND]
+    simple = st.sampled_from(_simple_commands())
+    cmd = st.one_of(simple, simple, simple, st.sampled_from(classes).flatmap(class_packet), unknown_packet())
+    cancel, wait_for = _directives()
+    directive = st.one_of(cancel, cancel, wait_for)
+    who = st.integers(0, 3)
+    entry = st.tuples(cmd, who, st.one_of(st.none(), st.none(), directive))
+    later = st.tuples(cmd, who, st.one_of(st.none(), st.none(), st.none(), st.none(), st.none(), directive))
+    credit = st.fixed_dictionaries({
+        'pattern': st.lists(st.sampled_from([0, 0, 1]), min_size=1, max_size=5),
+        'nop_delay': st.sampled_from([0, 0, 1, 7, 60]),
+    })
+
+    def build(d):
+        first, forced_at, forced, phases, sit, extended, delays, callers, gap, cred = d
+        program = [[p, w] + ([dv] if dv else []) for p, w, dv in first]
+        k = forced_at % len(program)
+        program[k] = program[k][:2] + [forced]  # at least one caller gives up
+        then = [[[p, w] + ([dv] if dv else []) for p, w, dv in ph] for ph in phases]
+        case = {'situation': sit, 'extended': extended, 'delays': delays, 'callers': callers, 'program': program,
+                'then': then, 'gap': gap}
+        if cred is not None:
+            case['credit'] = cred
+        return case
+
+    return st.tuples(
+        st.lists(entry, min_size=1, max_size=6), st.integers(0, 5), directive,
+        st.lists(st.lists(later, min_size=1, max_size=4), min_size=1, max_size=3),
+        st.sampled_from(['none', 'none', 'none', 'connected']), st.booleans(),
+        st.lists(st.sampled_from([0, 0, 1, 7, 50]), min_size=0, max_size=6), st.integers(1, 4),
+        st.sampled_from(_GAPS), st.one_of(st.none(), st.none(), st.none(), credit)).map(build)
+
+
+def cancel_grid():
+    """Enumerated (every shard runs all of it): ONE caller gives up at every point of the grid event x hops (x the
+    wait_for time-outs 0..9 ms), alone or queued behind another caller's command, under three delay vectors; followed
+    at once by a sequential caller and then by three concurrent callers, or by the three concurrent callers first."""
+    reads = _simple_commands()
+    cases = []
+    directives = [{'how': 'cancel', 'at': at, 'hops': hops, 'ms': 0} for at in CANCEL_EVENTS for hops in range(4)]
+    directives += [{'how': 'wait_for', 'ms': ms} for ms in range(10)]
+    for directive in directives:
+        for delays in ([], [1], [7, 0]):
+            for behind in (False, True):
+                for concurrent_first in (False, True):
+                    program = ([[reads[1], 0]] if behind else []) + [[reads[0], 1, directive]]
+                    one, three = [[reads[2], 0]], [[reads[3], 0], [reads[4], 1], [reads[5], 2]]
+                    # (one caller at a time re-synchronises a semaphore that was released once too often - the
+                    # release is guarded by locked() - so both orders are needed)
+                    then = [three, one] if concurrent_first else [one, three, [[reads[0], 0]]]
+                    cases.append({'situation': 'none', 'extended': True, 'delays': list(delays), 'callers': 3,
+                                  'program': program, 'then': then, 'gap': 0})
+    return cases
+
+
 # ---------------------------------------------------------------------------
 # one case
 # ---------------------------------------------------------------------------
 class _RawCommand(hci.HCI_Command):
-    """A command that serialises to exactly the given packet bytes."""
+    """A command that serialises to exactly the given packet bytes (and tells the harness when it is serialised: the
+    host does that at the moment it writes the command, so the harness knows whose command a written packet is)."""
 
-    def __init__(self, packet: bytes):
+    def __init__(self, packet: bytes, note=None):
         self._packet = packet
+        self._note = note
         self.op_code = int.from_bytes(packet[1:3], 'little')
         self.name = cmd_name(self.op_code)
         self._parameters = packet[4:]
 
     def __bytes__(self):
+        if self._note is not None:
+            self._note()
         return self._packet
+
+
+def _entry(e):
+    """One program entry as plain data: [packet, who] or [packet, who, directive]."""
+    out = [bytes(e[0]), int(e[1])]
+    if len(e) > 2 and e[2]:
+        out.append(dict(e[2]))
+    return out
 
 
 def run_case(ctx, case) -> None:
     situation = case['situation']
     delays = list(case['delays'])
-    program = [(bytes(p), int(c)) for p, c in case['program']]
+    # the phases of the case: case['program'], then (cancel programs) the phases of case['then'], each started when the
+    # callers of the phase before it have returned; `program` is all of it, flat: (packet, who), the index is the
+    # command's identity in results / directives / life
+    phases = [[_entry(e) for e in case['program']]] + [[_entry(e) for e in ph] for ph in (case.get('then') or [])]
+    flat = [(ph, e) for ph, entries in enumerate(phases) for e in entries]
+    program = [(e[0], e[1]) for _ph, e in flat]
+    directives = {i: e[2] for i, (_ph, e) in enumerate(flat) if len(e) > 2}
+    gap = float(case.get('gap') or 0)
     ncallers = max(1, int(case['callers']))
     loop = vloop.new_loop()
     loop.max_iterations = 300_000
     state: dict = {}
+    # per command: what the harness has seen of its life (started / written / at_controller / responded / dispatched)
+    life = [dict() for _ in program]
+    state.update(life=life, directives=directives, cancel_states=[], phases=phases)
 
     def fail(sig, what):
         ctx.fail(sig, what, {'kind': 'program', **{k: case[k] for k in ('situation', 'extended', 'delays', 'callers')},
                              **{k: case[k] for k in OPTIONAL_KEYS if case.get(k) is not None},
-                             'program': [[p, c] for p, c in program]})
+                             'program': phases[0], **({'then': phases[1:]} if len(phases) > 1 else {})})
 
     async def setup():
         link = world.OrderedLink()
@@ -541,22 +690,143 @@ def run_case(ctx, case) -> None:
         # from here on the tap applies the generated delays
         tap._delays = {world.H2C: tap._cycle(delays, 0), world.C2H: tap._cycle(delays, 1)}
         state.update(link=link, ctrl=ctrl, tap=tap, host=host, peer=peer, mark=len(tap.log))
+        if directives:
+            follow_commands(tap, host)
+
+    # ---- whose command is where (only needed to aim cancellations; nothing is judged from it) ------------------
+    written = collections.deque()  # commands written by the host, not yet delivered to the controller (None: not ours)
+    unanswered = collections.deque()  # delivered to the controller, response not yet delivered to the host
+
+    def follow_commands(tap, host):
+        class HostWrites:
+            """host -> tap: the command the host writes now is the one it has just serialised."""
+
+            def on_packet(self, packet):
+                i = state.pop('serialised', None)
+                tap.to_controller.on_packet(packet)
+                if packet[0] == 0x01:
+                    written.append(i)
+                    if i is not None:
+                        life[i]['written'] = True
+                        fire(i, 'written')
+
+        class HostReads:
+            """tap -> host: a response counts as dispatched when the host has returned from it."""
+
+            def on_packet(self, packet):
+                try:
+                    host.on_packet(packet)
+                finally:
+                    for i in state.pop('dispatching', ()):
+                        life[i]['dispatched'] = True
+
+        def listener(direction, packet):
+            if direction == world.H2C and packet[0] == 0x01:
+                i = written.popleft() if written else None
+                unanswered.append(i)
+                if i is not None:
+                    life[i]['at_controller'] = True
+                    fire(i, 'at_controller')
+            elif direction == world.C2H and packet[0] == 0x04 and packet[1] in (0x0E, 0x0F) and len(packet) >= 7:
+                op = int.from_bytes(packet[4:6], 'little') if packet[1] == 0x0E else int.from_bytes(packet[5:7], 'little')
+                if op == 0 or not unanswered:
+                    return
+                i = unanswered.popleft()
+                if i is not None:
+                    life[i]['responded'] = True
+                    state.setdefault('dispatching', []).append(i)
+                    fire(i, 'response')  # the host dispatches the response right after the listeners, in this callback
+
+        host.set_packet_sink(HostWrites())
+        tap.sinks[world.C2H] = HostReads()
+        tap.listeners.append(listener)
+
+    def where_is(i):
+        L = life[i]
+        if not L.get('started'):
+            return 'not_started'
+        if not L.get('written'):
+            return 'queued'
+        if L.get('dispatched'):
+            return 'answered_unseen'
+        if L.get('responded'):
+            return 'at_dispatch'
+        return 'at_controller' if L.get('at_controller') else 'written'
+
+    def fire(i, event):
+        d = directives.get(i)
+        if not d or d.get('how') != 'cancel' or d.get('at') != event or life[i].get('fired'):
+            return
+        life[i]['fired'] = True
+
+        def do():
+            task = life[i]['task']
+            state['cancel_states'].append('done' if task.done() else where_is(i))
+            task.cancel()
+
+        def hop(n):
+            if n <= 0:
+                do()
+            else:
+                loop.call_soon(hop, n - 1)
+
+        ms = float(d.get('ms') or 0) * state['tap'].unit
+        if ms:
+            loop.call_later(ms, hop, int(d.get('hops') or 0))
+        else:
+            hop(int(d.get('hops') or 0))
 
     results: list = [None] * len(program)
 
-    async def caller(k):
+    async def issue(i, packet):
+        """One caller's command: plainly, or as a task that is cancelled at the generated point, or inside an
+        asyncio.wait_for with the generated time-out. Returns what the caller got."""
         host = state['host']
-        for i, (packet, who) in enumerate(program):
+        d = directives.get(i)
+        how = d.get('how') if d else None
+        if how is None:
+            # (no bookkeeping at all for the cases without a caller that gives up: exactly the first-round harness)
+            rsp = await host.send_command(_RawCommand(packet))
+            return ('ok', rsp.command_opcode, type(rsp).__name__)
+
+        async def send():
+            life[i]['started'] = True
+            return await host.send_command(_RawCommand(packet, note=lambda: state.__setitem__('serialised', i)))
+
+        if how == 'cancel':
+            task = life[i]['task'] = loop.create_task(send())
+            fire(i, 'start')
+            try:
+                rsp = await task
+            except asyncio.CancelledError:
+                if not task.cancelled():
+                    raise
+                return ('cancelled',)
+        elif how == 'wait_for':
+            try:
+                rsp = await asyncio.wait_for(send(), timeout=float(d.get('ms') or 0) * state['tap'].unit)
+            except asyncio.TimeoutError:
+                state['cancel_states'].append('timeout:' + ('answered' if life[i].get('responded') else where_is(i)))
+                return ('timeout',)
+        else:
+            raise HarnessError(f'C03: unknown directive {d!r}')
+        return ('ok', rsp.command_opcode, type(rsp).__name__)
+
+    async def caller(ph, k):
+        first = sum(len(entries) for entries in phases[:ph])
+        for i in range(first, first + len(phases[ph])):
+            packet, who = program[i]
             if who % ncallers != k:
                 continue
             try:
-                rsp = await host.send_command(_RawCommand(packet))
-                results[i] = ('ok', rsp.command_opcode, type(rsp).__name__)
+                results[i] = await issue(i, packet)
             except asyncio.CancelledError:
+                raise
+            except HarnessError:
                 raise
             except Exception as e:
                 results[i] = ('exc', type(e).__name__, str(e)[:80])
-            if situation in SIT_LEAVES and state.get('peer') is not None and i >= len(program) // 2:
+            if ph == 0 and situation in SIT_LEAVES and state.get('peer') is not None and i >= len(phases[0]) // 2:
                 # the peer disappears from the link in the middle of the program
                 try:
                     state['link'].remove_controller(state['peer'].controller)
@@ -566,9 +836,15 @@ def run_case(ctx, case) -> None:
 
     async def main():
         await setup()
-        tasks = [loop.create_task(caller(k)) for k in range(ncallers)]
+        tasks = [loop.create_task(caller(0, k)) for k in range(ncallers)]
         state['tasks'] = tasks
         await asyncio.gather(*tasks)
+        for ph in range(1, len(phases)):
+            # further callers, once the callers before them have returned (a caller that gave up has returned: its
+            # command may still be on its way)
+            if gap:
+                await asyncio.sleep(gap * state['tap'].unit)
+            await asyncio.gather(*[loop.create_task(caller(ph, k)) for k in sorted({e[1] % ncallers for e in phases[ph]})])
         # conclusion phase: give accepted procedures time, cancel a pending LE connection creation
         await asyncio.sleep(2.0)
         pend = pending_procedures(state['tap'].log[state['mark']:])
@@ -684,6 +960,12 @@ def analyse(ctx, case, program, ncallers, state, results, outcome, loop, fail):
                 fail('caller_pending', f'caller of {cmd_name(op)} still waiting at quiescence ({outcome})')
                 ok = False
                 break
+            if r[0] in ('cancelled', 'timeout'):
+                # a caller the harness made give up (only such a caller can end like this: see issue())
+                how = (state['directives'].get(i) or {}).get('how')
+                if {'cancel': 'cancelled', 'wait_for': 'timeout'}.get(how) != r[0]:
+                    raise HarnessError(f'C03: caller {i} ended with {r[0]} under directive {how!r}')
+                continue
             if r[0] == 'exc':
                 fail(f'caller_exception/{r[1]}', f'caller of {cmd_name(op)} got {r[1]}({r[2]}) instead of the response to its command')
                 ok = False
@@ -704,6 +986,22 @@ def analyse(ctx, case, program, ncallers, state, results, outcome, loop, fail):
                  f'{cmd_name(op)} was accepted (Command Status pending) but no {kind} event followed within {HORIZON}s')
             ok = False
             break
+    # ---- the state the statement's first sentence rests on (anchors: command semaphore, pending command, pending
+    # response future), at quiescence: every command of the history is answered and every caller has returned, so the
+    # channel must be exactly free - one permit, nothing pending (more than one permit = the next concurrent callers
+    # send side by side; none = the next caller waits forever)
+    if ok and outcome == 'done' and state['directives']:
+        host = state['host']
+        permits = getattr(host.command_semaphore, '_value', None)
+        if permits is not None and permits != 1:
+            fail(f'channel_state/semaphore_permits_{min(permits, 2)}',
+                 f'at quiescence (all commands answered, all callers returned) the command semaphore has {permits} permits')
+            ok = False
+        elif host.pending_command is not None or host.pending_response is not None:
+            fail('channel_state/pending_left',
+                 f'at quiescence the host still has pending_command={host.pending_command!r} / '
+                 f'pending_response={host.pending_response!r}')
+            ok = False
     if outcome == 'budget':
         labels.add('iteration_budget_hit')
     ops = [int.from_bytes(p[1:3], 'little') for p, _ in program]
@@ -713,16 +1011,31 @@ def analyse(ctx, case, program, ncallers, state, results, outcome, loop, fail):
         labels.add('procedure_command')
     nontrivial = len(program) >= 2 and (
         ncallers >= 2 or any(case['delays']) or 'unregistered_opcode' in labels or 'procedure_command' in labels
+        or bool(state['directives'])
     )
     if len({w % ncallers for _, w in program}) >= 2:
         labels.add('concurrent_callers')
     labels |= history_labels(log, state)
+    if state['directives']:
+        labels.add('caller_gives_up')
+        gave_up = set(state['cancel_states'])
+        labels |= {f'gives_up:{w}' for w in gave_up}
+        # a caller gave up while its command was on its way (or its response was being dispatched), and callers came
+        # after it: one at a time / several at once
+        if gave_up & {'written', 'at_controller', 'at_dispatch', 'answered_unseen', 'timeout:written',
+                      'timeout:at_controller', 'timeout:answered'}:
+            widths = [len({e[1] % ncallers for e in ph}) for ph in state['phases'][1:]]
+            if any(w == 1 for w in widths):
+                labels.add('gives_up_in_flight_then_sequential')
+            if any(w >= 2 for w in widths):
+                labels.add('gives_up_in_flight_then_concurrent')
     if state.get('credits_withheld'):
         labels.add('credit_withheld')
         if 'concurrent_callers' in labels:
             labels.add('credit_withheld_concurrent')
     ctx.case((case['situation'], case['extended'], case['delays'], ncallers, program,
-              [case.get(k) for k in OPTIONAL_KEYS]), nontrivial, labels,
+              [case.get(k) for k in OPTIONAL_KEYS])
+             + ((state['phases'],) if state['directives'] or len(state['phases']) > 1 else ()), nontrivial, labels,
              sample={'situation': case['situation'], 'callers': ncallers, 'delays': case['delays'],
                      'program': [cmd_name(o) for o in ops]})
 
@@ -839,6 +1152,11 @@ def run(ctx) -> None:
     ctx.hyp('link_programs', family('link_program'), link_programs(), max_examples=ctx.n(500, 32000))
     ctx.hyp('cis_programs', family('cis_program'), cis_programs(), max_examples=ctx.n(300, 20000))
     ctx.hyp('credit_programs', family('credit_program'), credit_programs(), max_examples=ctx.n(250, 16000))
+    # callers that give up: the enumerated grid of cancellation points (all of it in every shard), then generated ones
+    for c in cancel_grid():
+        ctx.label('cancel_grid')
+        run_case(ctx, c)
+    ctx.hyp('cancel_programs', family('cancel_program'), cancel_programs(), max_examples=ctx.n(500, 32000))
     ctx.hyp('programs', lambda c: run_case(ctx, c), program_strategy(), max_examples=ctx.n(2500, 320000))
     ctx.floor('object_program', 100)
     # every procedure of the statement is entered (accepted as pending) and also ends well, on live links
@@ -854,6 +1172,16 @@ def run(ctx) -> None:
     ctx.floor('classic_link_disconnected', 10)
     ctx.floor('link_back_on_used_handle', 10)
     ctx.floor('situation:dual_peer_leaves', 10)
+    ctx.floor('cancel_grid', 312)
+    ctx.floor('cancel_program', 100)
+    # a caller gave up at every point of a command's life ...
+    for where in CANCEL_STATES:
+        ctx.floor(f'gives_up:{where}', 10)
+    for where in ('queued', 'written', 'at_controller', 'answered'):
+        ctx.floor(f'gives_up:timeout:{where}', 5)
+    # ... and while its command was on its way it was followed by one caller at a time / by several at once
+    ctx.floor('gives_up_in_flight_then_sequential', 50)
+    ctx.floor('gives_up_in_flight_then_concurrent', 50)
     ctx.floor('credit_withheld', 50)
     ctx.floor('credit_withheld_concurrent', 20)
     ctx.floor('concurrent_callers', 20)
